@@ -19,7 +19,8 @@ N == Len(Rec)
 VARIABLES l, st, viol, cnt
 vars == <<l, st, viol, cnt>>
 Empty == [x \in {} |-> 0]
-InitSt == [filter |-> [on |-> FALSE, op |-> "=", param |-> 0], written |-> Empty, filtered |-> {}, control |-> {}]
+InitSt == [filter |-> [on |-> FALSE, op |-> "=", param |-> 0], filter2 |-> [on |-> FALSE, op |-> "=", param |-> 0],
+           written |-> Empty, filtered |-> {}, filtered2 |-> {}, control |-> {}]
 CntInit == [scenarios |-> 0, writes |-> 0, takes |-> 0, presented |-> 0, withheld |-> 0, finals |-> 0, mixedfinal |-> 0]
 
 R(s, v, c) == [s |-> s, v |-> v, c |-> c]
@@ -28,7 +29,9 @@ Ext(f, k, v) == [x \in DOMAIN f \cup {k} |-> IF x = k THEN v ELSE f[x]]
 Member(smp, field) == IF field = "val" THEN smp.val ELSE IF field = "id" THEN smp.id ELSE smp.name
 Pass(f, x) == IF f.op = "=" THEN x = f.param ELSE x <= f.param
 
-OnCft(s, e, c) == IF e.ok = 1 THEN R([s EXCEPT !.filter = [on |-> TRUE, op |-> e.op, param |-> e.param]], {}, c) ELSE R(s, {}, c)
+\* (a second filtered reader of the same subscriber, same expression, its own parameter: every reader is judged by ITS filter)
+OnCft(s, e, c) == IF e.ok = 1 THEN R([s EXCEPT !.filter = [on |-> TRUE, op |-> e.op, param |-> e.param],
+                                               !.filter2 = [on |-> e.has2 = 1, op |-> e.op, param |-> e.param2]], {}, c) ELSE R(s, {}, c)
 OnWrite(s, e, c) == IF e.ok = 1 THEN R([s EXCEPT !.written = Ext(@, e.seq, [val |-> e.val, id |-> e.id, name |-> e.name])], {}, [c EXCEPT !.writes = @ + 1]) ELSE R(s, {}, c)
 
 OnTake(s, e, c) ==
@@ -38,6 +41,16 @@ OnTake(s, e, c) ==
         wrongdata == {k \in 1..Len(e.samples) : e.samples[k].seq \in known /\
                           s.written[e.samples[k].seq] # [val |-> e.samples[k].val, id |-> e.samples[k].id, name |-> e.samples[k].name]}
     IN IF ~s.filter.on THEN R(s, {}, c)
+       ELSE IF e.which = "filtered2" THEN
+         LET failing == {q \in known : ~Pass(s.filter2, Member(s.written[q], e.field))}
+             again == seqs \cap s.filtered2
+             twice == Len(e.samples) # Cardinality(seqs)
+         IN R([s EXCEPT !.filtered2 = @ \cup seqs],
+              (IF unknown # {} THEN {"C26:presented-sample-never-written"} ELSE {})
+              \cup (IF wrongdata # {} THEN {"C26:presented-sample-differs-from-written"} ELSE {})
+              \cup (IF failing # {} THEN {"C26:filtered-reader-presented-sample-failing-the-filter"} ELSE {})
+              \cup (IF again # {} \/ twice THEN {"C26:sample-presented-twice"} ELSE {}),
+              [c EXCEPT !.takes = @ + 1, !.presented = @ + Cardinality(seqs)])
        ELSE IF e.which = "filtered" THEN
          LET failing == {q \in known : ~Pass(s.filter, Member(s.written[q], e.field))}
              again == seqs \cap s.filtered
@@ -52,9 +65,11 @@ OnTake(s, e, c) ==
          LET ctl == s.control \cup known
              should == {q \in ctl : Pass(s.filter, Member(s.written[q], e.field))}
              missing == should \ s.filtered
+             should2 == IF s.filter2.on THEN {q \in ctl : Pass(s.filter2, Member(s.written[q], e.field))} ELSE {}
+             missing2 == should2 \ s.filtered2
              mixed == should # {} /\ should # ctl
          IN R([s EXCEPT !.control = ctl],
-              IF e.final = 1 /\ missing # {} THEN {"C26:passing-sample-not-presented"} ELSE {},
+              IF e.final = 1 /\ (missing # {} \/ missing2 # {}) THEN {"C26:passing-sample-not-presented"} ELSE {},
               IF e.final = 1 THEN [c EXCEPT !.finals = @ + 1, !.withheld = @ + Cardinality(ctl \ should), !.mixedfinal = @ + (IF mixed THEN 1 ELSE 0)] ELSE c)
 
 Apply(s, e, c) ==
